@@ -268,7 +268,13 @@ def r6_2(model: Model, rep: Report) -> None:
         ex = kw.get("expression")
         fl = dict(ex[2]) if ex is not None and ex[0] == "rec" else (kwargs_of(ex) if ex is not None else {})
         tgt = fl.get("population")
-        if not (ex is not None and str(ex[1]).endswith("PopulationProbability") and tgt is not None and tgt[0] == "global" and str(tgt[1]).endswith("TARGET_DOMAIN")):
+        try:
+            from ..symeval import State as _State
+            tgt_value = ev.lookup("TARGET_DOMAIN", _State({}), f, 0)  # what the name TARGET_DOMAIN denotes in this module (the constant, resolved)
+        except Exception:  # noqa: BLE001
+            tgt_value = None
+        is_target = tgt is not None and ((tgt[0] == "global" and str(tgt[1]).endswith("TARGET_DOMAIN")) or (tgt_value is not None and tgt == tgt_value))
+        if not (ex is not None and str(ex[1]).endswith("PopulationProbability") and is_target):
             problems.append("the recursion does not start from the target domain's observational joint")
         elif kw.get("domain") != tgt:
             problems.append("the initial expression's population tag is not the query's initial domain")
